@@ -46,10 +46,20 @@ def _key_sign(ctx: Ctx, fn: FunctionInfo, key: Optional[ast.AST]) -> Optional[in
 
 
 def _sorted_call(ctx: Ctx, fn: FunctionInfo, e: ast.AST, depth: int = 0):
-    """(sorted-call node, owner function, input expr in *fn* terms) for an expression that denotes a sorted list."""
+    """(sorted-call node, owner function, input expr in *fn* terms) for an expression that denotes a sorted list.
+    Order-preserving wrappers (list(), dict.fromkeys(), a filtering comprehension over a sorted list) are looked through."""
     if isinstance(e, ast.Call) and call_name(e) == "sorted" and isinstance(e.func, ast.Name):
         return e, fn, e.args[0] if e.args else None
-    if isinstance(e, ast.Call) and depth < 2:
+    if isinstance(e, ast.Call) and call_name(e) in ("list", "tuple", "fromkeys", "reversed_not") and e.args and depth < 4:
+        return _sorted_call(ctx, fn, e.args[0], depth + 1)
+    if isinstance(e, ast.ListComp) and len(e.generators) == 1 and isinstance(e.elt, ast.Name) and isinstance(e.generators[0].target, ast.Name) \
+            and e.elt.id == e.generators[0].target.id and depth < 4:
+        return _sorted_call(ctx, fn, e.generators[0].iter, depth + 1)
+    if isinstance(e, ast.Name) and depth < 4:
+        ds = [a for a in walk_local(fn.node) if isinstance(a, ast.Assign) and any(isinstance(t, ast.Name) and t.id == e.id for t in a.targets)]
+        if len(ds) == 1:
+            return _sorted_call(ctx, fn, ds[0].value, depth + 1)
+    if isinstance(e, ast.Call) and depth < 6:
         t = ctx.res.resolve(fn, e)
         if t.kind == "repo" and len(t.targets) == 1:
             g = t.targets[0]
@@ -89,6 +99,13 @@ def run(ctx: Ctx) -> None:
                     src = ds[-1].value if ds else None
                 sc = _sorted_call(ctx, it, src) if src is not None else None
                 if sc is None:
+                    if "litism" in c.name:
+                        if it not in elit:
+                            elit.append(it)
+                        ctx.ob("C16.R1", it, y, "the elite is a prefix of the population ordered best-first", False,
+                               f"'{norm(y)[:60]}' cuts k individuals from '{norm(base)}', which is not the population sorted best-first "
+                               f"(it keeps population order): when more than k candidates qualify (ties at the cut-off) a strictly better "
+                               f"individual later in the population is excluded")
                     continue
                 if it not in elit:
                     elit.append(it)
